@@ -10,6 +10,7 @@ From SCC Require Import Model.RunLin.
 From SCC Require Import Base.Sexp Model.RunBase Model.RunCheck.
 From SCC Require Import Model.RunFmt.
 From SCC Require Import Base.Sexp Model.RunBase Model.RunRV.
+From SCC Require Import Model.RunHeapOps.
 Open Scope string_scope.
 
 Definition dispatch (cmd : string) (input : string) : string :=
@@ -32,5 +33,6 @@ Definition dispatch (cmd : string) (input : string) : string :=
   | "fmt" => run_fmt input
   | "codegen-rv" => run_codegen_rv input
   | "sem-rv" => run_sem_rv input
+  | "heapops-x86" => run_heapops_x86 input
   | _ => "BAD - unknown command " ++ cmd ++ nl
   end.
